@@ -8,11 +8,23 @@ HARNESSES = [dict(name="session", pkg="./pkg/session/", test="TestVerifC17", fil
                   files=[("internal/ipoe/zz_verif_c17_test.go", "harness/C17/zz_verif_c17_ipoe_test.go")]),
              dict(name="e2e", pkg="./internal/ipoe/", test="TestVerifC17E2E", timeout=900,
                   files=[("internal/ipoe/zz_verif_c17_e2e_test.go", "harness/C17/zz_verif_c17_e2e_test.go")]),
+             dict(name="pppoe_restore", pkg="./internal/pppoe/", test="TestVerifC17Restore", timeout=600,
+                  files=[("internal/pppoe/zz_verif_c17_restore_test.go", "harness/C17/zz_verif_c17_pppoe_restore_test.go")]),
+             dict(name="ipoe_restore", pkg="./internal/ipoe/", test="TestVerifC17Restore", timeout=600,
+                  files=[("internal/ipoe/zz_verif_c17_restore_test.go", "harness/C17/zz_verif_c17_ipoe_restore_test.go")]),
              dict(name="pppoe", pkg="./internal/pppoe/", test="TestVerifC17Callers", timeout=600,
                   files=[("internal/pppoe/zz_verif_c17_test.go", "harness/C17/zz_verif_c17_pppoe_test.go")])]
 MODEL_NEEDS_IMPL = True
-# No model variants: all recorded C17 findings are fixed in /repo (94649ad, c1f4ba1, 49433a1); the model is what HEAD does and a
-# regression to any of them is a VIOLATION.
+# Model variants: "repaired" = every recorded repair; "halfopen_unclaimed" = /repo HEAD's ipoe restore path, which puts a session that
+# was checkpointed half-established back into the session tables without claiming its tuple (only ripoe cases depend on it).
+# The findings fixed in /repo (94649ad, c1f4ba1, 49433a1) are part of every variant: a regression there is a VIOLATION.
+VARIANTS = ["repaired", "halfopen_unclaimed"]
+
+
+def signature(case, impl, models):
+    if case.startswith("ripoe") and impl == models.get("halfopen_unclaimed"):
+        return "ipoe-restored-halfopen-session-without-claim"
+    return None
 RULE = ("seq: random sequential histories (1..40 ops) of Claim/Release/IsOwner/Lookup by 2..5 sessions of both protocols "
         "(plus rare foreign protocol strings, empty session ids, Owner.Key different from the claimed key) over 1..4 tuples "
         "drawn from a pool with colliding and non-colliding shard hashes, same MAC on different C-VLANs, VLAN 0/65535; "
@@ -30,6 +42,10 @@ RULE = ("seq: random sequential histories (1..40 ops) of Claim/Release/IsOwner/L
         "Start, PADI/PADR through its packet channel) on ONE registry and ONE real local event bus on a mixed-access S-VLAN; "
         "random DISCOVER / PADR sequences (2..6) over 1..2 of 4 tuples; after every op the settled (live ipoe sessions, live "
         "pppoe sessions, owner protocol) of the tuple is compared with the model (non-trivial: a cross-protocol takeover). "
+        "rpppoe/ripoe: ownership across RESTARTS - the real pppoe (resp. ipoe) component on an in-memory opdb that survives, sessions created "
+        "as the creation paths build them and checkpointed, restart = new Registry + new component + restoreSessions, the other "
+        "protocol's side simulated by the harness; random N/H/X/B sequences (2..7) on 1..2 tuples, all four tuples compared after "
+        "every op (non-trivial: a session of the real component lives through a restart). "
         "wgl: hand-written histories fed to the driver's linearizability search, which must reject (8) / accept (4) / flag "
         "as malformed (2) them on every run. "
         "Distinct: by case text.")
@@ -206,6 +222,11 @@ def gen_cases(rng, tier, budget):
     nconc = (budget // 4) if budget else (500 if quick else 10000)
     nrace = (budget // 20) if budget else (150 if quick else 1500)
     cases += E2E_FIXED
+    for who in ("rpppoe", "ripoe"):
+        cases += [who + " " + c for c in RESTORE_FIXED]
+        for _ in range((budget // 40) if budget else (60 if quick else 1500)):
+            cases.append(gen_restore(rng, who))
+    cases += ["ripoe H0 B X0", "ripoe H1 B N1 X1", "ripoe H0 B B X0", "ripoe X0 H0 B X0"]
     for _ in range((budget // 40) if budget else (50 if quick else 500)):
         cases.append(gen_e2e(rng))
     for who in ("ipoe", "pppoe"):
@@ -241,7 +262,25 @@ def gen_cases(rng, tier, budget):
 
 def route(case):
     h = case.split(" ", 1)[0]
-    return {"rconc": "session_race", "ipoe": "ipoe", "pppoe": "pppoe", "e2e": "e2e"}.get(h, "session")
+    return {"rconc": "session_race", "ipoe": "ipoe", "pppoe": "pppoe", "e2e": "e2e", "rpppoe": "pppoe_restore",
+            "ripoe": "ipoe_restore"}.get(h, "session")
+
+
+def gen_restore(rng, who):
+    """ownership across restarts: N = the real component creates (and checkpoints) a session, H (ipoe) = checkpointed
+    half-established, X = the other protocol's side gets a packet, B = restart (new registry, component restored from the opdb)"""
+    ts = rng.sample([0, 1, 2, 3], rng.choice([1, 1, 2]))
+    kinds = "NNXXB" + ("H" if who == "ripoe" else "")
+    ops = []
+    for _ in range(rng.randint(2, 7)):
+        k = rng.choice(kinds)
+        ops.append("B" if k == "B" else k + str(rng.choice(ts)))
+    if "B" not in ops:
+        ops.insert(rng.randint(1, len(ops)), "B")
+    return who + " " + " ".join(ops)
+
+
+RESTORE_FIXED = ["N0 B X0", "X0 N0 B", "N0 N0 B X0", "N0 X0 B N0 B", "N1 X2 B X1 N2", "N0 B B X0", "X0 B N0 B X0", "N0 N1 B X1 B X0"]
 
 
 def gen_e2e(rng):
@@ -365,6 +404,9 @@ def overlaps(case, impl, kinds=None):
 def nontrivial(case, out):
     if case.startswith("wgl"):
         return True
+    if case.startswith(("rpppoe", "ripoe")):
+        t = case.split()[1:]
+        return "B" in t and any(x[0] in "NH" for x in t[:t.index("B")])     # a session of the real component lives through a restart
     if case.startswith("e2e"):
         t = case.split()[1:]
         return any((a[0] == "P") != (b[0] == "P") and a[1] == b[1] for a, b in zip(t, t[1:]))    # a cross-protocol takeover
@@ -389,6 +431,14 @@ def classify(case, impl, model):
         return "G", "case not isolated: too many crashing cases in this run"
     if case.startswith("wgl"):
         return "G", "self-test of the linearizability checker failed: expected %s, the driver says %s" % (impl, model)
+    if case.startswith(("rpppoe", "ripoe")):
+        it, mt, ops = impl.split(), model.split(), case.split()[1:]
+        for i, (a, b) in enumerate(zip(it, mt)):
+            if a != b:
+                return "P", ("ownership across restart (%s component real, other side simulated): after op #%d (%s) the tuples show %s "
+                             "(live ipoe/pppoe sessions : owner), the specification gives %s" % (
+                                 "pppoe" if case.startswith("rpppoe") else "ipoe", i, ops[i] if i < len(ops) else "?", a, b))
+        return "P", "restore: %r vs %r" % (impl[:200], model[:200])
     if case.startswith("e2e") and ("!unsettled" in impl or impl.startswith("panic no_P")):
         return "G", "end-to-end run did not settle / no PADO-PADS within the harness deadline: %s" % impl[:200]
     if case.startswith("e2e"):
@@ -432,7 +482,7 @@ def shrink(case):
     t = case.split()
     if t[0] == "wgl":
         return
-    if t[0] == "e2e":
+    if t[0] in ("e2e", "rpppoe", "ripoe"):
         for i in range(1, len(t)):
             if len(t) > 2:
                 yield " ".join(t[:i] + t[i + 1:])
@@ -472,7 +522,8 @@ def shrink(case):
 
 
 def distribution(cases, impl):
-    d = {"seq": 0, "conc": 0, "rconc": 0, "ipoe": 0, "pppoe": 0, "wgl": 0, "wgl_reject": 0, "e2e": 0, "e2e_ops": 0,
+    d = {"rpppoe": 0, "ripoe": 0, "restarts": 0, "restored_live_sessions_own_tuple": 0, "restored_live_sessions_without_owner": 0,
+         "seq": 0, "conc": 0, "rconc": 0, "ipoe": 0, "pppoe": 0, "wgl": 0, "wgl_reject": 0, "e2e": 0, "e2e_ops": 0,
          "e2e_cross_protocol_takeovers": 0, "e2e_both_gone_after_takeover": 0, "e2e_both_protocols_live": 0, "caller_claims": 0, "caller_releases": 0, "gated_call_sites": 0, "gate_fired_inside": 0,
          "eviction_events": 0, "ops": 0, "claim": 0, "release": 0, "isowner": 0, "lookup": 0,
          "shard_obs": 0, "count_obs": 0, "makekey": 0, "alias_reread": 0, "alias_scribble": 0, "displaced_reported": 0, "claims_nil": 0,
@@ -486,6 +537,15 @@ def distribution(cases, impl):
         d["hang"] += o.startswith("hang")
         if t[0] == "wgl":
             d["wgl_reject"] += t[1] == "reject"
+            continue
+        if t[0] in ("rpppoe", "ripoe"):
+            for op, r in zip(t[1:], o.split()):
+                if op == "B":
+                    d["restarts"] += 1
+                    for tok in r.split(","):
+                        parts = tok.split(":")
+                        if len(parts) == 3 and parts[1] != "i0p0":
+                            d["restored_live_sessions_own_tuple" if parts[2] != "-" else "restored_live_sessions_without_owner"] += 1
             continue
         if t[0] == "e2e":
             ops, res = t[1:], o.split()
